@@ -270,3 +270,19 @@ def replay(ctx, rep):
     print('disagreements:', res.disagreements)
     print('oracle failures:', res.oracle_failures)
     return 1 if (res.disagreements or res.oracle_failures) else 0
+
+
+def shrink(ctx, failure):
+    """smallest history (by writes) on which the same oracle signature still fails"""
+    case = failure['case']
+    h = case.get('history')
+    if not h:
+        return None
+
+    def still(ws):
+        hh = dict(h, writes=ws, fault_at=-1 if h['fault_at'] < 0 else min(h['fault_at'], len(ws) - 1))
+        r = common.Result()
+        evaluate(ctx, [hh], r)
+        return any(x.get('signature') == failure.get('signature') for x in r.oracle_failures)
+    small = common.ddmin(h['writes'], still, budget=30)
+    return {'history': dict(h, writes=small, fault_at=-1 if h['fault_at'] < 0 else min(h['fault_at'], len(small) - 1))}
